@@ -76,6 +76,15 @@ impl<'a, 'b> PatternTyper<'a, 'b> {
                 match self.environment.scope.get(name) {
                     // This variable was defined in the Initial multi-pattern
                     Some(initial) if self.initial_pattern_vars.contains(name) => {
+                        // Ensure there are no duplicate variable names in the alternative
+                        // either: counted twice, a variable would make up for a missing one.
+                        if assigned.iter().any(|assigned| assigned == name) {
+                            return Err(Error::DuplicateVarInPattern {
+                                name: name.to_string(),
+                                location: err_location,
+                            });
+                        }
+
                         assigned.push(name.to_string());
                         let initial_typ = initial.tipo.clone();
                         self.environment
